@@ -8,7 +8,11 @@ pub(crate) fn union_without_unsafe(meta: &Meta) -> syn::Error {
     match s.len() {
         9 => s.push_str("(unsafe)"),
         11 => s.insert_str(10, "unsafe"),
-        _ => unreachable!(),
+        _ => {
+            // other list delimiters, e.g. `PartialEq {}` or `PartialEq []`
+            s.truncate(9);
+            s.push_str("(unsafe)");
+        },
     }
 
     syn::Error::new(
